@@ -21,6 +21,7 @@ git -C /repo worktree add --detach -q "$WT" HEAD || exit 2
 cleanup() { git -C /repo worktree remove --force "$WT" 2>/dev/null; rm -rf "$WT"; }
 trap cleanup EXIT
 mkdir -p "$WT/tests" && cp "$DEMO" "$WT/tests/"
+[ -n "${VERIF_TARGET_DIR:-}" ] && export CARGO_TARGET_DIR="$VERIF_TARGET_DIR/wt"
 NAME=${PFX}_${ID}_$K
 ( cd "$WT" && cargo test --offline --test $NAME 2>&1 | grep "test result" | head -1 ) > /tmp/sc_clean_$$.txt
 CLEAN=$(grep -c "test result: ok" /tmp/sc_clean_$$.txt)
@@ -30,6 +31,7 @@ SUITE=$(grep -c "82 passed; 0 failed" /tmp/sc_suite_$$.txt)
 ( cd "$WT" && cargo test --offline --test $NAME 2>&1 | grep "test result" | head -1 ) > /tmp/sc_demo_$$.txt
 DEMOFAIL=$(grep -c "FAILED" /tmp/sc_demo_$$.txt)
 rm -rf "$WT/tests/$NAME.rs"
+unset CARGO_TARGET_DIR
 EVD=$(mktemp -d /tmp/sc_ev_XXXXXX)
 cd "$(dirname "$0")/.." && VERIF_MILA="$WT" VERIF_EVIDENCE_DIR="$EVD" ./check "$ID" --tier "$TIER" > "$EVD/log" 2>&1
 RC=$?
